@@ -51,8 +51,8 @@ def moveToEnd (s : PStr) (l : List PStr) : List PStr := (l.filter (· != s)) ++ 
 
 def Args.varnameOrder (a : Args) : List PStr :=
   let p := a.paramNames
-  let p := match a.varPos with | some s => if s.truthy then moveToEnd s p else p | none => p
-  match a.varKw with | some s => if s.truthy then moveToEnd s p else p | none => p
+  let p := match a.varPos with | some s => moveToEnd s p | none => p
+  match a.varKw with | some s => moveToEnd s p | none => p
 
 def indexOfStr (x : PStr) : List PStr → Option Nat
   | [] => none
@@ -210,8 +210,6 @@ def blocksToBytes (v : Ver) (blocks : List (List Instr)) (addArgs : List Arg) (f
   let cellvars ← st.cellvars.toTuple
   let consts ← st.consts.toTuple
   pure ⟨out.1, ⟨out.2.1, out.2.2⟩, names, varnames, cellvars, consts⟩
-
-def fromFlags (bits : List Nat) : Nat := bits.foldl (fun a b => a ||| (1 <<< b)) 0
 
 def ftypeBits : Option FnType → List Nat
   | some .generator => [bGENERATOR] | some .coroutine => [bCOROUTINE] | some .asyncGenerator => [bASYNC_GENERATOR] | none => []
